@@ -66,6 +66,35 @@ def gen_churn_unit(rng):
     return {"args": sel + ["--regular-expression-cache-size", str(rng.choice((0, 1, 2, 64)))], "A": A, "B": B, "headers": False, "funcs": ["parse_time"]}
 
 
+SCOPE_SELECTS = [
+    '(set "a" .x (? .c (set "b" 1 (push [] :a :b)) :a))', '(set "a" .x (and .c (set "b" 1 (= :a .x))))',
+    '(define "m" (+ .x 1) (default (? .c (set "b" "k" (push [] @m :b)) .nosuch) "none"))',
+    '(set "a" .x (set "b" .i (? .c (set "c" 0 (push [] :a :b :c)) :b)))', '(set "a" .x (or (not .c) (set "b" 1 (= :a .x))))',
+    '(set "a" .x (default (? .c (set "a2" :a (set "b" 1 (push [] :a :a2 :b))) .nosuch) (set "z" 9 (push [] :z :a))))',
+    '(set "a" (push [] .x) (? .c (set "b" 1 (first :a)) (set "b" 1 (push [] (first :a)))))',
+    '(map (range 3) (set "a" (+ . ^.x) (? (= . ^.i) (set "b" 1 :a) -1)))',
+    '(set "a" .x (? .c (define "m" :a (set "b" 1 (push [] @m :a))) :a))',
+]
+
+
+def gen_scopes_unit(rng):
+    """Nested bindings whose inner scope is entered for some records only (behind ?, and, or, default): what a name stands for
+    inside is what THIS record bound to it, however many records took the other branch before."""
+    def recs(n):
+        out = []
+        for _ in range(n):
+            c = rng.random() < rng.choice((0.3, 0.5, 0.7))
+            for _ in range(rng.choice((1, 1, 2, 3, 5))):      # runs of records on one branch, of odd and even lengths
+                out.append(jm.dumps({"x": rng.choice((1, 2, 3, "p", "q", 10, 11, 12, 13, 14, 15)) if rng.random() < 0.7 else rng.randint(0, 10 ** 6),
+                                     "c": c, "i": rng.randint(0, 3)}))
+        return out
+    sels = rng.sample(SCOPE_SELECTS, rng.choice((1, 1, 2, 3)))
+    args = ["--select=%s=s%d" % (e, i) for i, e in enumerate(sels)]
+    if rng.random() < 0.3:
+        args = ["--filter=" + rng.choice(SCOPE_SELECTS[:2]).replace("(push [] :a :b)", "(= :a .x)")] + args
+    return {"args": args, "A": recs(rng.choice((2, 4, 8))), "B": recs(rng.choice((2, 4, 8))), "headers": False, "funcs": ["set", "define"], "singles": True}
+
+
 def gen_exec_unit(rng):
     """A program that could not be started for one record (a NUL in its argument, an argument too long for the kernel) is
     started for the next one like any other."""
@@ -85,6 +114,8 @@ def gen_unit(rng):
         return gen_two_printers_unit(rng)
     if rng.random() < 0.01:
         return gen_churn_unit(rng)
+    if rng.random() < 0.03:
+        return gen_scopes_unit(rng)
     g = eg.Gen(rng, ill_typed=0.08, maxdepth=3)
     sc = eg.Scope()
     args = []
@@ -164,6 +195,8 @@ def run_unit(ctx, unit):
     B = "\n".join(unit["B"]).encode()
     join = lambda x, y: x + (b"\n" if x and y else b"") + y
     cases = [core.Case(unit["args"], d) for d in (A, B, join(A, B), join(B, A), join(A, A))]
+    singles = (unit["A"] + unit["B"])[:40] if unit.get("singles") else []
+    cases += [core.Case(unit["args"], x.encode()) for x in singles]
     # the concatenations arrive part by part (first read result = the first part, then the rest): "B arrives after A"
     if A:
         cases[2].rsched = [len(A), 1 << 20]
@@ -181,7 +214,15 @@ def run_unit(ctx, unit):
             st.count("skipped_configuration_or_run_error")
         return
     st.count("conclusive")
-    oA, oB, oAB, oBA, oAA = [o.stdout for o in obs]
+    oA, oB, oAB, oBA, oAA = [o.stdout for o in obs[:5]]
+    if singles and len(singles) == len(unit["A"]) + len(unit["B"]):
+        # every record on its own, in a run that has seen nothing else
+        alone = b"".join(o.stdout for o in obs[5:])
+        if alone != oA + oB:
+            st.violation("not-record-local:alone", "the rows of a run are not the rows that each record gives in a run of its own", unit,
+                         {"args": unit["args"], "A": A[:500], "B": B[:500], "out_A": oA[:500], "out_B": oB[:500], "out_each_alone": alone[:1000]})
+            return
+        st.count("records_run_alone", len(singles))
     hdr = b""
     if unit["headers"]:
         # the header row is printed once per run
